@@ -67,10 +67,6 @@ def _cost(c):
         return ps.LinearFunction(slope=c["slope"], intercept=c["intercept"])
     if k == "poly":
         return ps.PolynomialFunction(coefficients=list(c["coefficients"]))
-    if k == "general":
-        # a user-supplied python callable computing the same values as the linear function c["as"]
-        a, i = c["as"]["slope"], c["as"]["intercept"]
-        return ps.GeneralFunction(function=lambda x, a=a, i=i: a * x + i)
     raise ValueError(k)
 
 
@@ -483,10 +479,11 @@ def build(spec, stop_on_error=True):
     early = [c for c in cons if c["kind"] in ("TaskLoadBuffer", "TaskUnloadBuffer")]
     late = [c for c in cons if c["kind"] in ("IndicatorTarget", "IndicatorBounds")]
     mid = [c for c in cons if c not in early and c not in late]
-    for c in early:
-        call("constraint", c.get("id") or c["kind"], lambda c=c: mk_constraint(b, c))
-    for c in mid:
-        call("constraint", c.get("id") or c["kind"], lambda c=c: mk_constraint(b, c))
+    # buffer operations and the other constraints are declared in the order of the Spec (C14 permutes it); only the
+    # constraints that need an indicator object wait for the indicators
+    for c in cons:
+        if c in early or c in mid:
+            call("constraint", c.get("id") or c["kind"], lambda c=c: mk_constraint(b, c))
     for i in spec.get("indicators", []):
         call("indicator", i["id"], lambda i=i: mk_indicator(b, i))
     for c in late:
